@@ -5,7 +5,7 @@ import random
 import re
 import string
 from dataclasses import dataclass, field
-from typing import TYPE_CHECKING, Any
+from typing import TYPE_CHECKING, Any, ClassVar
 
 from typing_extensions import Self
 
@@ -228,7 +228,9 @@ class SigmaFilter(SigmaRuleBase):
         return True
 
     # Keywords that must not be prefixed when rewriting filter conditions
-    _CONDITION_KEYWORDS: frozenset[str] = frozenset({"not", "and", "or", "all", "any", "of", "1"})
+    _CONDITION_KEYWORDS: ClassVar[frozenset[str]] = frozenset(
+        {"not", "and", "or", "all", "any", "of", "1"}
+    )
 
     def apply_on_rule(
         self: Self, rule: SigmaRule | SigmaCorrelationRule
